@@ -72,6 +72,7 @@ func main() {
 		}
 		f.Close()
 	}
+	applyRetypes(root)
 	cfg := &packages.Config{
 		Mode:       packages.NeedName | packages.NeedFiles | packages.NeedSyntax | packages.NeedTypes | packages.NeedTypesInfo | packages.NeedImports | packages.NeedDeps | packages.NeedCompiledGoFiles,
 		Dir:        root,
@@ -138,6 +139,63 @@ func main() {
 	}
 	fmt.Printf("instrumented files=%d locks=%d unlocks=%d go=%d yields=%d dense_yields=%d once=%d map_ranges=%d pools=%d selects=%d skipped=%d\n",
 		st.files, st.locks, st.unlocks, st.gos, st.yields, st.dense, st.onces, st.ranges, st.pools, st.selects, st.skipped)
+}
+
+// applyRetypes is a textual pre-pass, run before type-checking: an overlay file
+// (*_verif.go) may carry lines of the form
+//
+//	//verif:retype <from> <to>
+//
+// and every occurrence of <from> in the other non-test Go files of the same
+// directory is replaced by <to>. It exists for struct fields typed with a
+// concrete kernel-socket type (e.g. *net.UDPConn) that the simulator must be
+// able to replace by a harness-owned endpoint: <to> is an interface declared in
+// the overlay file that the concrete type also satisfies, so the repo's own
+// constructors keep compiling. Opt-in, one package at a time; without a
+// directive nothing changes.
+func applyRetypes(root string) {
+	filepath.WalkDir(filepath.Join(root, "internal"), func(path string, d os.DirEntry, err error) error {
+		if err != nil || d.IsDir() || !strings.HasSuffix(path, "_verif.go") {
+			return nil
+		}
+		b, err := os.ReadFile(path)
+		if err != nil {
+			return nil
+		}
+		for _, line := range strings.Split(string(b), "\n") {
+			line = strings.TrimSpace(line)
+			if !strings.HasPrefix(line, "//verif:retype ") {
+				continue
+			}
+			f := strings.Fields(strings.TrimPrefix(line, "//verif:retype "))
+			if len(f) != 2 {
+				fmt.Fprintf(os.Stderr, "bad retype directive in %s: %q\n", path, line)
+				os.Exit(2)
+			}
+			dir := filepath.Dir(path)
+			ents, _ := os.ReadDir(dir)
+			n := 0
+			for _, e := range ents {
+				name := e.Name()
+				if e.IsDir() || !strings.HasSuffix(name, ".go") || strings.HasSuffix(name, "_test.go") || strings.HasSuffix(name, "_verif.go") {
+					continue
+				}
+				fp := filepath.Join(dir, name)
+				src, err := os.ReadFile(fp)
+				if err != nil || !bytes.Contains(src, []byte(f[0])) {
+					continue
+				}
+				n += bytes.Count(src, []byte(f[0]))
+				if err := os.WriteFile(fp, bytes.ReplaceAll(src, []byte(f[0]), []byte(f[1])), 0o644); err != nil {
+					fmt.Fprintln(os.Stderr, err)
+					os.Exit(2)
+				}
+			}
+			rel, _ := filepath.Rel(root, dir)
+			fmt.Printf("retype %s: %s -> %s (%d occurrences)\n", rel, f[0], f[1], n)
+		}
+		return nil
+	})
 }
 
 // stripComments keeps only comments up to the package clause and //go:
